@@ -848,6 +848,20 @@ hdf_xdr_NCvdata(NC *handle, NC_var *vp, unsigned long where, nc_type type, uint3
         } /* end if */
     }     /* end if */
 
+    /* No-fill mode: a new fixed-size variable gets its full length at once, so
+       that this and later requests can seek anywhere inside it.  SDwritedata
+       asks for this through set_length, but hdf_get_vp_aid only honours that
+       when the write itself attaches the variable, not when an earlier read
+       or a previous session already did. */
+    if (elem_length <= 0 && isspecial == 0 && !IS_RECVAR(vp) && (handle->flags & NC_NOFILL) != 0) {
+        if (Hsetlength(vp->aid, vp->len) == FAIL) {
+            ret_value = FAIL;
+            goto done;
+        }
+        vp->set_length = FALSE;
+        elem_length    = vp->len;
+    }
+
     /* Collect all the number-type size information, etc. */
     byte_count = count * vp->HDFsize;
 
@@ -1036,14 +1050,6 @@ hdf_xdr_NCvdata(NC *handle, NC_var *vp, unsigned long where, nc_type type, uint3
             } while (buf_size > 0);
         }      /* end if */
         else { /* don't write fill values, just seek to the correct location */
-            /* The new element has no length yet, so nothing past its start can
-               be sought to; give a fixed-size variable its full length first
-               (SDwritedata's set_length request only reaches a variable that
-               is not attached yet). */
-            if (!IS_RECVAR(vp) && elem_length <= 0 && Hsetlength(vp->aid, vp->len) == FAIL) {
-                ret_value = FAIL;
-                goto done;
-            }
             if (Hseek(vp->aid, where, DF_START) == FAIL) {
                 ret_value = FAIL;
                 goto done;
